@@ -51,6 +51,8 @@ type Model struct {
 	// Upgrade: a create through a child store over an entity that exists without data in that child store is judged:
 	// the parent's fields are overwritten by the payload (validated like an update) and the child data is added.
 	Upgrade bool
+	// UpgradePlainOnly restricts Upgrade to entities without any child data (the entity then has exactly one child part).
+	UpgradePlainOnly bool
 }
 
 func NewModel(cfg Config) *Model {
@@ -67,7 +69,7 @@ func NewModel(cfg Config) *Model {
 }
 
 func (m *Model) Clone() *Model {
-	c := &Model{Cfg: m.Cfg, Defs: m.Defs, Upgrade: m.Upgrade, Ents: map[string]map[string]*MEnt{}, Watch: map[pair]bool{}, Cred: map[pair]int{}}
+	c := &Model{Cfg: m.Cfg, Defs: m.Defs, Upgrade: m.Upgrade, UpgradePlainOnly: m.UpgradePlainOnly, Ents: map[string]map[string]*MEnt{}, Watch: map[pair]bool{}, Cred: map[pair]int{}}
 	for t, es := range m.Ents {
 		c.Ents[t] = map[string]*MEnt{}
 		for id, e := range es {
@@ -291,7 +293,7 @@ func (m *Model) Create(store, id string, v map[string]any, cv map[string]any) Pr
 			if _, hasChild := existing.Child[store]; hasChild {
 				return rej(ExpReject, "already exists")
 			}
-			if !m.Upgrade {
+			if !m.Upgrade || (m.UpgradePlainOnly && len(existing.Child) > 0) {
 				return Pred{Skip: true, Why: "create through child over an existing plain parent is not defined"}
 			}
 			full := map[string]any{}
